@@ -271,16 +271,13 @@ where
                     1
                 }
             };
-            // get a random generator initialized with seed corresponding to couple(id_hash, count)
-            // Xoshiro256PlusPlus use [u8; 32] as seed , we must fill seed_256 with (id_hash, count)
-            // TODO to optimize
-            let mut seed_256 = [0u8; 32];
-            seed_256[0..8].copy_from_slice(&id_hash.to_ne_bytes());
-            seed_256[8..16].copy_from_slice(&newcount.to_ne_bytes());
-            seed_256[16..24].copy_from_slice(&self.seed.to_ne_bytes());
-            //            seed_256[24..32].copy_from_slice(&0xcf7355744a6e8145_u64.to_ne_bytes());
-
-            let mut rng = Xoshiro256PlusPlus::from_seed(seed_256);
+            // get a random generator initialized with seed corresponding to couple(id_hash, count).
+            // The 3 words (id_hash, count, seed) must be mixed before seeding: with a raw 256 bits seed (id_hash, count, seed, 0)
+            // the first output of Xoshiro256PlusPlus depends only on id_hash, so all occurrences of an item began with the same value.
+            let mut seed_hasher = WyHash::with_seed(self.seed);
+            seed_hasher.write_u64(id_hash);
+            seed_hasher.write_u64(newcount);
+            let mut rng = Xoshiro256PlusPlus::seed_from_u64(seed_hasher.finish());
             x = Exp1.sample(&mut rng);
             let mut nb_inserted = 0;
             while x < self.max_tracker.get_max_value() {
